@@ -12,6 +12,7 @@ package metadata
 // each entity once with its latest version, ascending; the per-entity history matches the model.
 
 import (
+	"context"
 	"encoding/json"
 	"errors"
 	"fmt"
@@ -45,6 +46,8 @@ type c15Op struct {
 	Since  int        `json:"since,omitempty"`
 	Page   int64      `json:"page,omitempty"`
 	Dt     int64      `json:"dt,omitempty"`
+	Trip   int        `json:"trip,omitempty"`   // cancel: the request context is cancelled at its Trip-th poll
+	Create bool       `json:"create,omitempty"` // cancel: the cancelled request is a create
 }
 
 type c15Case struct {
@@ -212,10 +215,71 @@ func (m *c15Model) journal(since int64) []vpmetaEvent {
 // ---------- running ----------
 
 type c15Run struct {
-	t     vpT
-	env   *vpmetaEnv
-	m     *c15Model
-	stats map[string]int
+	t             vpT
+	env           *vpmetaEnv
+	m             *c15Model
+	stats         map[string]int
+	rejectedSince int // requests that failed since the last accepted one
+}
+
+// c15TripCtx is a request context that is cancelled (client gone, deadline hit) exactly when the
+// code under test polls it for the tripAt-th time; the sqlite engine polls before every statement
+// step, so a drawn or swept tripAt places the cancellation at any point of the edit transaction,
+// including the engine's own statements after the SaveEntity callback has returned.
+type c15TripCtx struct {
+	context.Context
+	mu      sync.Mutex
+	calls   int
+	tripAt  int
+	tripped bool
+	done    chan struct{}
+}
+
+func c15NewTripCtx(tripAt int) *c15TripCtx {
+	return &c15TripCtx{Context: context.Background(), tripAt: tripAt, done: make(chan struct{})}
+}
+
+func (c *c15TripCtx) Err() error {
+	c.mu.Lock()
+	defer c.mu.Unlock()
+	c.calls++
+	if c.calls >= c.tripAt {
+		if !c.tripped {
+			c.tripped = true
+			close(c.done)
+		}
+		return context.Canceled
+	}
+	return nil
+}
+
+func (c *c15TripCtx) Done() <-chan struct{} { return c.done }
+
+func (c *c15TripCtx) wasTripped() bool {
+	c.mu.Lock()
+	defer c.mu.Unlock()
+	return c.tripped
+}
+
+// saveCancelled sends one request whose context is cancelled at its trip-th poll. A request that
+// comes back with an error after the cancellation is a failed request whatever the error says (the
+// model is not advanced; the invariant after the step proves that nothing of it is visible). It
+// reports whether the cancellation point was reached.
+func (r *c15Run) saveCancelled(req c15Req, trip int, what string) (tripped bool, ok bool) {
+	v := r.m.judge(req)
+	ctx := c15NewTripCtx(trip)
+	tlev, err := r.env.db.SaveEntity(ctx, req.name, req.id, req.version, req.data, req.create, req.del, req.typ, req.metadata)
+	tripped = ctx.wasTripped()
+	if err != nil && tripped {
+		r.stats["cancelled-request-failed"]++
+		r.rejectedSince++
+		return tripped, false
+	}
+	r.settle(req, v, vpmetaFromTL(tlev), err, what)
+	if err == nil && tripped {
+		r.stats["cancelled-request-still-succeeded"]++
+	}
+	return tripped, err == nil
 }
 
 // check one answer of SaveEntity against the verdict; on success it is committed to the model
@@ -229,6 +293,7 @@ func (r *c15Run) settle(req c15Req, v c15Verdict, ev vpmetaEvent, err error, wha
 			t.Fatalf("%s: %+v has a stale version and is otherwise valid; expected the version error, got %q", what, req, err)
 		}
 		r.stats["rejected:"+v.why]++
+		r.rejectedSince++
 		return
 	}
 	if !v.ok {
@@ -247,6 +312,14 @@ func (r *c15Run) settle(req c15Req, v c15Verdict, ev vpmetaEvent, err error, wha
 	if ev != want {
 		t.Fatalf("%s: answer %+v, expected %+v", what, ev, want)
 	}
+	// failed requests consume nothing: the accepted request gets the version right after the last accepted one
+	if ev.Version != r.m.maxVersion+1 {
+		t.Fatalf("%s: accepted request got version %d, the previous accepted version is %d (%d failed requests in between): a version was consumed by a request that did not succeed", what, ev.Version, r.m.maxVersion, r.rejectedSince)
+	}
+	if r.rejectedSince > 0 {
+		r.stats["rejected-edit-then-accepted"]++
+	}
+	r.rejectedSince = 0
 	r.m.commit(ev, v.isCreate)
 }
 
@@ -342,6 +415,55 @@ func (r *c15Run) apply(op c15Op) {
 		if err == nil {
 			r.stats["predefined"]++
 		}
+	case "cancel":
+		var req c15Req
+		ids := r.positive()
+		if op.Create || len(ids) == 0 {
+			typ := c15Types[op.Typ%len(c15Types)]
+			req = c15Req{name: c15Name(op.Name, op.NS, typ), create: true, data: c15Datas[op.Data%len(c15Datas)], typ: typ, metadata: c15Metas[op.Meta%len(c15Metas)]}
+		} else {
+			e := r.m.ents[ids[op.Ent%len(ids)]]
+			name := e.cur.Name
+			if op.Name > 0 {
+				name = c15Name(op.Name-1, op.NS, e.cur.Type)
+			}
+			req = c15Req{name: name, id: e.cur.ID, version: r.pickVersion(e, op.Ver), data: c15Datas[op.Data%len(c15Datas)], del: op.Del, typ: e.cur.Type, metadata: c15Metas[op.Meta%len(c15Metas)]}
+		}
+		trip := op.Trip
+		if trip < 1 {
+			trip = 1
+		}
+		r.saveCancelled(req, trip, "request cancelled at poll "+fmt.Sprint(trip))
+	case "cancelsweep":
+		// a valid edit of one entity, retried with the cancellation one poll later each time, until
+		// the request gets through without reaching the cancellation point
+		ids := r.positive()
+		if len(ids) == 0 {
+			return
+		}
+		id := ids[op.Ent%len(ids)]
+		for trip := 1; trip <= 96; trip++ {
+			e := r.m.ents[id]
+			req := c15Req{name: e.cur.Name, id: id, version: e.cur.Version, data: fmt.Sprintf(`{"sweep":%d}`, trip), del: e.cur.DeletedAt, typ: e.cur.Type, metadata: c15Metas[trip%len(c15Metas)]}
+			tripped, _ := r.saveCancelled(req, trip, fmt.Sprintf("valid edit cancelled at poll %d", trip))
+			r.invariantEntity(fmt.Sprintf("after the edit cancelled at poll %d", trip), id)
+			if !tripped {
+				r.stats["cancel-sweep-complete"]++
+				break
+			}
+		}
+	case "editmissing":
+		var maxID int64
+		for _, id := range r.m.order {
+			if id > maxID {
+				maxID = id
+			}
+		}
+		typ := c15Types[op.Typ%len(c15Types)]
+		req := c15Req{name: c15Name(op.Name, 0, typ), id: maxID + 3, version: r.pickVersion(&c15Ent{}, op.Ver), data: c15Datas[op.Data%len(c15Datas)], del: op.Del, typ: typ, metadata: c15Metas[op.Meta%len(c15Metas)]}
+		v := r.m.judge(req)
+		ev, err := r.save(req)
+		r.settle(req, v, ev, err, "edit of an entity that does not exist")
 	case "race":
 		ids := r.positive()
 		if len(ids) == 0 || len(op.Racers) < 2 {
@@ -498,6 +620,24 @@ func c15DiffEvents(want, got []vpmetaEvent) string {
 	return ""
 }
 
+// invariantEntity: the journal and the history of one entity equal the model (cheap form used inside sweeps)
+func (r *c15Run) invariantEntity(when string, id int64) {
+	t := r.t
+	if d := c15DiffEvents(r.m.journal(0), vpmetaJournalPaged(t, r.env.db, 0, 1000)); d != "" {
+		t.Fatalf("%s: journal: %s", when, d)
+	}
+	e := r.m.ents[id]
+	h := vpmetaHistoryOf(t, r.env.db, id)
+	if len(h) != len(e.hist) {
+		t.Fatalf("%s: GetHistoryShort(%d) lists %d versions, the entity went through %d accepted requests: %+v", when, id, len(h), len(e.hist), h)
+	}
+	for i := range h {
+		if want := e.hist[len(e.hist)-1-i]; h[i].Version != want.Version || h[i].Metadata != want.Metadata {
+			t.Fatalf("%s: GetHistoryShort(%d)[%d] = (%d,%q), expected (%d,%q)", when, id, i, h[i].Version, h[i].Metadata, want.Version, want.Metadata)
+		}
+	}
+}
+
 // invariant: everything a reader can see equals the model
 func (r *c15Run) invariant(step int) {
 	t := r.t
@@ -526,6 +666,18 @@ func (r *c15Run) invariant(step int) {
 			if h[i].Entity != want {
 				t.Fatalf("after op %d: GetEntityVersioned(%d,%d) = %+v, expected %+v", step, id, want.Version, h[i].Entity, want)
 			}
+		}
+	}
+	// nothing of a failed create: ids nobody was given have no history
+	var maxID int64
+	for _, id := range r.m.order {
+		if id > maxID {
+			maxID = id
+		}
+	}
+	for _, id := range []int64{maxID + 1, maxID + 2, maxID + 3} {
+		if h := vpmetaHistoryOf(t, db, id); len(h) != 0 {
+			t.Fatalf("after op %d: entity id %d was never returned by an accepted create, yet it has history %+v", step, id, h)
 		}
 	}
 	// a version that never existed
@@ -571,21 +723,28 @@ func c15GenOp(t *rapid.T) c15Op {
 		}), 2, 5).Draw(t, "racers")
 	}
 	switch {
-	case w < 22:
+	case w < 20:
 		return c15Op{K: "create", Typ: typ(), Name: rapid.IntRange(0, 3).Draw(t, "name"), NS: ns(), Data: rapid.IntRange(0, 5).Draw(t, "data"), Del: del(), Meta: rapid.IntRange(0, 2).Draw(t, "meta")}
-	case w < 58:
+	case w < 52:
 		return c15Op{K: "edit", Ent: rapid.IntRange(0, 7).Draw(t, "ent"), Name: rapid.SampledFrom([]int{0, 0, 1, 2, 3, 4}).Draw(t, "name"), NS: ns(), Data: rapid.IntRange(0, 5).Draw(t, "data"),
 			Ver: rapid.SampledFrom([]int{0, 0, 0, 0, 0, 1, 1, 2, 3, 4}).Draw(t, "ver"), Del: del(), Meta: rapid.IntRange(0, 2).Draw(t, "meta")}
-	case w < 64:
+	case w < 57:
 		return c15Op{K: "predef", NegID: rapid.IntRange(0, 3).Draw(t, "neg"), Data: rapid.IntRange(0, 5).Draw(t, "data"), Ver: rapid.SampledFrom([]int{0, 0, 0, 1, 2, 4}).Draw(t, "ver"), Meta: rapid.IntRange(0, 2).Draw(t, "meta")}
-	case w < 76:
+	case w < 66:
 		return c15Op{K: "race", Ent: rapid.IntRange(0, 7).Draw(t, "ent"), Racers: racers()}
-	case w < 81:
+	case w < 70:
 		return c15Op{K: "racecreate", Typ: typ(), Name: rapid.IntRange(0, 3).Draw(t, "name"), NS: ns(), Racers: racers()}
-	case w < 93:
+	case w < 79:
 		return c15Op{K: "journal", Since: rapid.IntRange(0, 20).Draw(t, "since"), Page: rapid.SampledFrom([]int64{1, 2, 3, 5, 100}).Draw(t, "page")}
-	case w < 96:
+	case w < 82:
 		return c15Op{K: "reopen"}
+	case w < 90:
+		return c15Op{K: "cancel", Create: rapid.IntRange(0, 3).Draw(t, "create") == 0, Ent: rapid.IntRange(0, 7).Draw(t, "ent"), Typ: typ(), Name: rapid.SampledFrom([]int{0, 0, 1, 2, 3, 4}).Draw(t, "name"), NS: ns(),
+			Data: rapid.IntRange(0, 5).Draw(t, "data"), Ver: rapid.SampledFrom([]int{0, 0, 0, 0, 1, 2}).Draw(t, "ver"), Meta: rapid.IntRange(0, 2).Draw(t, "meta"), Trip: rapid.IntRange(1, 12).Draw(t, "trip")}
+	case w < 93:
+		return c15Op{K: "cancelsweep", Ent: rapid.IntRange(0, 7).Draw(t, "ent")}
+	case w < 97:
+		return c15Op{K: "editmissing", Typ: typ(), Name: rapid.IntRange(0, 3).Draw(t, "name"), Data: rapid.IntRange(0, 5).Draw(t, "data"), Ver: rapid.SampledFrom([]int{0, 2, 4}).Draw(t, "ver"), Del: del(), Meta: rapid.IntRange(0, 2).Draw(t, "meta")}
 	default:
 		return c15Op{K: "clock", Dt: rapid.SampledFrom([]int64{1, 7, 3600}).Draw(t, "dt")}
 	}
